@@ -117,7 +117,9 @@ UnmarshalErr(t, cur, s) ==
 
 \* ---- what is demanded of one observed step
 \* objects: the projection of every object equals the spec's post-state (dirty objects carry the marker on both sides)
-ObjsOK(post, ob) == Len(ob.objs) = Len(post) /\ \A i \in 1..Len(post) : FromProj(ob.objs[i]) = post[i]
+\* (a history recorded with "lastonly" projects the objects only after its final step, so that lazily deferred
+\* submessages stay deferred in between: steps without a projection are checked on their result only)
+ObjsOK(post, ob) == ob.objs = <<>> \/ (Len(ob.objs) = Len(post) /\ \A i \in 1..Len(post) : FromProj(ob.objs[i]) = post[i])
 
 ResultOK(t, objs, s, ob) ==
   LET cur == objs[s.o + 1] IN
